@@ -22,6 +22,9 @@ NOTES = {
  'c16-5': 'round 2; missed at first; caught after constant NVRAM images (all zero / all ones) were added',
  'c17-4': 'round 2; missed at first; caught after loop-back pacing cases were added',
  'c18-4': 'round 2; missed at first; caught after PSW and unwritable destinations were added to the 2-/3-operand pairs',
+ 'c01-4': 'round 2; missed by C01 at first (no host traffic during power-on), caught by C14 at once; C01 catches it after the dense-traffic-during-boot scenario was added',
+ 'c01-5': 'round 2; missed by C01 at first (scrolling only on firmware 2 in the quick tier), caught by C05 at once; C01 catches it after the firmware-1 scroll scenario was added to the quick tier',
+ 'c01-6': 'round 2; missed by C01 at first (the harness stepped itself), caught by C19 at once; C01 catches it after Dmd::run (rn op) was added to the lock-step cases',
  'c03-3': 'missed by the first C03 slice (only two-operand probes); caught after expanded types are spread over 3- and 4-operand instructions',
 }
 for f in sorted(os.listdir('/var/tmp/mutres')):
